@@ -243,6 +243,20 @@ class ExprMixin:
                 and isinstance(a, (Opaque, str, FStr)) and isinstance(b, (Opaque, str, FStr)):
             f = z3.Function('str_concat', U, U, U)
             return [ok(Opaque(f(self.as_u_term(a, st), self.as_u_term(b, st)), kind='str', label='concat'), st)]
+        # list + list: a new list (kept as segments when an operand has symbolic length)
+        if isinstance(op, ast.Add) and isinstance(a, Ref) and isinstance(b, Ref) and \
+                st.obj(a).kind in ('list', 'slist', 'seglist') and st.obj(b).kind in ('list', 'slist', 'seglist'):
+            def segs(r):
+                h = st.obj(r)
+                if h.kind == 'list':
+                    return [('items', list(h.items))]
+                if h.kind == 'slist':
+                    return [('slist', r)]
+                return list(h.meta['segments'])
+            ss = segs(a) + segs(b)
+            if all(k == 'items' for k, _ in ss):
+                return [ok(st.alloc(HObj('list', items=[x for _, xs in ss for x in xs])), st)]
+            return [ok(st.alloc(HObj('seglist', meta={'segments': ss})), st)]
         # strings
         if isinstance(a, (str, FStr)) or isinstance(b, (str, FStr)):
             if isinstance(op, ast.Add) and isinstance(a, (str, FStr)) and isinstance(b, (str, FStr)):
